@@ -205,7 +205,12 @@ class _Skel(object):
             return pre + body
         if isinstance(st, ast.Try):
             if st.orelse:
-                raise ExtractError('try/else is outside the translated subset')
+                # `try: B except: H else: E` is `try: B except: H` followed by E exactly when no handler
+                # can complete normally (each ends in raise/return): E then runs only after a normal B,
+                # and exceptions raised in E are not caught by H
+                if not st.handlers or not all(h.body and isinstance(h.body[-1], (ast.Raise, ast.Return))
+                                              for h in st.handlers):
+                    raise ExtractError('try/else with a handler that can fall through is outside the translated subset')
             body = self.block(st.body)
             res = body
             if st.handlers:
@@ -220,6 +225,8 @@ class _Skel(object):
                             catch_all = True
                     hs.append(self.block(h.body))
                 res = [('try', body, catch_all, hs)]
+            if st.orelse:
+                res = res + self.block(st.orelse)
             if st.finalbody:
                 res = [('finally', res, self.block(st.finalbody))]
             return res
